@@ -18,7 +18,7 @@ pub const PROGRAMS: [&[&str]; 4] = [
   &["a := 1", "b := 2", "c := 3", "d := 4"],
 ];
 
-pub const PROSE: [(&str, &str); 30] = [
+pub const PROSE: [(&str, &str); 36] = [
   ("title", "A Title\n==========="),
   ("section", "1. Section heading\n-------------------"),
   ("subsection", "(1.1) Sub section"),
@@ -49,6 +49,13 @@ pub const PROSE: [(&str, &str); 30] = [
   ("footnote", "[^1]: a footnote body"),
   ("abstract", "%% an abstract paragraph"),
   ("link", "See [the docs](https://mech-lang.org) for more."),
+  // a fence shown verbatim inside a fence of the other sigil / of a longer run: the inner lines are text, not code
+  ("tilde-fence-holding-grave-fence", "~~~markdown\n```\na := 999\n```\n~~~"),
+  ("grave-fence-holding-tilde-fence", "```text\n~~~\na := 999\n~~~\n```"),
+  ("long-grave-fence-holding-short", "````\n```\na := 999\n```\n````"),
+  ("tilde-fence-holding-mech-fence", "~~~\n```mech\na := 999\nx = 999\n```\n~~~"),
+  ("grave-fence-holding-tilde-line", "```\n~~~ not a closer\na := 999\n```"),
+  ("python-fence-holding-tilde-fence", "```python\n~~~\na = 999\n~~~\n```"),
 ];
 
 #[derive(Clone)]
@@ -56,9 +63,19 @@ pub enum Doc {
   /// program index, insertions (gap, prose index) in order
   Prose(usize, Vec<(usize, usize)>),
   /// namespace of each statement of PROGRAMS[3] (0 = unnamed, 1 = alpha, 2 = beta, ...), index of a statement replaced by a failing one
-  Fences(Vec<usize>, Option<usize>, &'static [&'static str]),
+  Fences(Vec<usize>, Option<(usize, usize)>, &'static [&'static str]),
 }
 
+/// statements that fail in different places: name lookup, a kernel, an index, inside the body of a user function defined in the same fence
+/// (plain body and match-arm form), a match without a matching arm
+pub const FAILING: [(&str, &str); 6] = [
+  ("undefined-name", "q := undefined_name"),
+  ("kernel-shape", "q := [1 2] + [1 2 3]"),
+  ("index-out-of-range", "w := [1 2 3]\nq := w[7]"),
+  ("user-function-body", "bad(i<f64>) = z<f64> := m := [10 20 30]; z := m[i].\nq := bad(7)"),
+  ("user-function-arm-body", "pick(i<f64>) => <f64>\n  ├ 0 => 1\n  └ n => [10 20 30][n].\nq := pick(7)"),
+  ("u8-overflow", "o<u8> := 200\nq := o + o"),
+];
 pub const NAMESPACES: [&str; 6] = ["", "alpha", "beta", "hidden_layer", "disabled_units", "hidden2"];
 
 pub fn docs(tier: Tier) -> Vec<Doc> {
@@ -75,7 +92,7 @@ pub fn docs(tier: Tier) -> Vec<Doc> {
     }
   }
   // fence layouts over the independent program: every assignment of 4 statements to {unnamed, alpha, beta}
-  for m in 0..81usize { let l: Vec<usize> = (0..4).map(|i| m / 3usize.pow(i as u32) % 3).collect(); v.push(Doc::Fences(l.clone(), None, PROGRAMS[3])); for f in 0..4 { if l[f] != 0 { v.push(Doc::Fences(l.clone(), Some(f), PROGRAMS[3])); } } }
+  for m in 0..81usize { let l: Vec<usize> = (0..4).map(|i| m / 3usize.pow(i as u32) % 3).collect(); v.push(Doc::Fences(l.clone(), None, PROGRAMS[3])); for f in 0..4 { if l[f] != 0 { for k in 0..FAILING.len() { if k == 0 || k == 3 || k == 4 || tier == Tier::Thorough || (m + 2 * f + k) % 3 == 0 { v.push(Doc::Fences(l.clone(), Some((f, k)), PROGRAMS[3])); } } } } }
   // namespaces whose names begin with a fence keyword are ordinary names
   for m in 0..81usize { let l: Vec<usize> = (0..4).map(|i| [0usize, 3, 4][m / 3usize.pow(i as u32) % 3]).collect(); v.push(Doc::Fences(l, None, PROGRAMS[3])); }
   for m in 0..27usize { let l: Vec<usize> = (0..3).map(|i| [0usize, 3, 5][m / 3usize.pow(i as u32) % 3]).collect(); v.push(Doc::Fences(l, None, PROGRAMS[0])); }
@@ -101,7 +118,7 @@ pub fn render(d: &Doc) -> (String, String) {
       while i < layout.len() {
         let ns = layout[i];
         let mut group = vec![];
-        while i < layout.len() && layout[i] == ns { group.push(if Some(i) == *fail { "q := undefined_name".to_string() } else { stmts[i].to_string() }); i += 1; }
+        while i < layout.len() && layout[i] == ns { group.push(match fail { Some((fi, k)) if *fi == i => FAILING[*k].1.to_string(), _ => stmts[i].to_string() }); i += 1; }
         if ns == 0 { blocks.push(group.join("\n\n")); } else { blocks.push(format!("```mech:{}\n{}\n```", NAMESPACES[ns], group.join("\n"))); }
       }
       (blocks.join("\n\n"), String::new())
@@ -121,6 +138,13 @@ pub fn snapshot_of(i: &Interpreter) -> Vec<(String, bool, Canon)> {
   }
   out.sort();
   out
+}
+
+/// the statements of a multi-line fence body (a definition that spans lines stays together: continuation lines are indented)
+fn split_statements(t: &str) -> Vec<String> {
+  let mut v: Vec<String> = vec![];
+  for l in t.split('\n') { if l.starts_with(' ') && !v.is_empty() { let last = v.len() - 1; v[last].push('\n'); v[last].push_str(l); } else { v.push(l.to_string()); } }
+  v
 }
 
 fn interpret_doc(src: &str) -> Result<(Interpreter, bool), String> {
@@ -157,7 +181,7 @@ impl UnitRunner for C10 {
           if lo % 480 == 0 && out.samples.is_empty() { out.sample(json!({"document": doc, "bindings": short(&sd)})); }
         }
         Doc::Fences(layout, fail, stmts) => {
-          let locus = format!("fences:{}{}", layout.iter().map(|n| match *n { 0 => "u", 1 => "a", 2 => "b", 3 => "h", 4 => "d", _ => "k" }).collect::<String>(), if fail.is_some() { "+failing" } else { "" });
+          let locus = format!("fences:{}{}", layout.iter().map(|n| match *n { 0 => "u", 1 => "a", 2 => "b", 3 => "h", 4 => "d", _ => "k" }).collect::<String>(), match fail { Some((_, k)) => format!("+failing:{}", FAILING[*k].0), None => String::new() });
           let (di, _dok) = match interpret_doc(&doc) { Ok(x) => x, Err(e) if e == "parse" => { out.count("document_unparsable"); out.set("unparsable_fence_layouts", &locus); continue; } Err(e) => { out.fail(format!("C10|panic|{}", locus), case, e); continue; } };
           out.nontrivial += 1;
           // reference: one independent interpreter per namespace, fed that namespace's statements in document order
@@ -168,7 +192,9 @@ impl UnitRunner for C10 {
             let mut skip_block = false;
             for (i, st) in stmts.iter().enumerate() {
               if i > 0 && layout[i] != layout[i - 1] { skip_block = false; }
-              if layout[i] == ns && !skip_block { let t = if Some(i) == *fail { "q := undefined_name" } else { st }; if !r.run(t).is_value() && ns != 0 { skip_block = true; } }
+              if layout[i] == ns && !skip_block { let t: &str = match fail { Some((fi, k)) if *fi == i => FAILING[*k].1, _ => st };
+                // a fenced block is interpreted statement by statement; the failing "statement" may be several lines (a definition, then the call)
+                for line in split_statements(t) { if skip_block { break; } if !r.run(&line).is_value() && ns != 0 { skip_block = true; } } }
             }
             let want = r.snapshot();
             let got: Option<Vec<(String, bool, Canon)>> = if ns == 0 { Some(snapshot_of(&di)) } else { let subs = di.sub_interpreters.borrow(); subs.get(&hash_str(NAMESPACES[ns])).map(|b| snapshot_of(b)) };
@@ -193,8 +219,8 @@ impl Check for C10 {
   fn unit_budget(&self, _t: Tier) -> Duration { Duration::from_secs(120) }
   fn drive(&mut self, tier: Tier, cfg: &PoolCfg, rep: &mut Report) {
     let n = self.ds.len() as u64;
-    rep.rule = format!("{} documents: 3 base programs x every placement of one prose element (30 kinds: titles, sections, paragraphs incl. ones that quote a define, lists, quotes, breaks, tables, plain / python / tilde / disabled fences containing a conflicting define, // and -- comments incl. ones with semicolons, callouts, equation, footnote, abstract, link) in every gap, {} placements of two; \
-      every assignment of 4 independent statements to {{unnamed, fence alpha, fence beta}} (81 layouts) with each fenced statement in turn replaced by a failing one, the same with namespaces named hidden_layer / disabled_units / hidden2, and chained statements across namespaces; oracle: bindings of the document = bindings of its code-only rendering; per namespace = an independent interpreter fed that namespace's statements; evaluations = documents; non-trivial = documents that parse", n, if tier == Tier::Quick { "a fixed quarter of all" } else { "all" });
+    rep.rule = format!("{} documents: 3 base programs x every placement of one prose element (36 kinds: fences showing a fence of the other sigil or of a shorter run verbatim, titles, sections, paragraphs incl. ones that quote a define, lists, quotes, breaks, tables, plain / python / tilde / disabled fences containing a conflicting define, // and -- comments incl. ones with semicolons, callouts, equation, footnote, abstract, link) in every gap, {} placements of two; \
+      every assignment of 4 independent statements to {{unnamed, fence alpha, fence beta}} (81 layouts) with each fenced statement in turn replaced by a failing one (6 kinds: undefined name, kernel shape error, index out of range, the body of a user function defined in the fence in plain and match-arm form, integer overflow), the same with namespaces named hidden_layer / disabled_units / hidden2, and chained statements across namespaces; oracle: bindings of the document = bindings of its code-only rendering; per namespace = an independent interpreter fed that namespace's statements; evaluations = documents; non-trivial = documents that parse", n, if tier == Tier::Quick { "a fixed quarter of all" } else { "all" });
     rep.assumptions = vec!["documents that do not parse are owned by C09 (counted, listed)".into(), "`ans`, out_values, returned ids of prose and HTML are not judged".into()];
     rep.cov("bounds", json!({"documents": n, "prose_elements": PROSE.len()}));
     let ds = self.ds.clone();
